@@ -1,6 +1,7 @@
 package main
 
 import (
+	"strings"
 	"fmt"
 	"go/token"
 	"go/types"
@@ -836,6 +837,7 @@ func (ex *Exec) typeAssert(fr *Frame, st *State, x *ssa.TypeAssert) Value {
 	var ok *Term
 	var res Value
 	if _, isIface := x.AssertedType.Underlying().(*types.Interface); isIface {
+		ex.implementsFacts(st, x.AssertedType)
 		ok = And(Ne(v.L[0], Int(0)), UF("implements."+typeKey(x.AssertedType), SBool, v.L[0]))
 		res = Value{T: x.AssertedType, L: v.L}
 	} else {
@@ -854,6 +856,43 @@ func (ex *Exec) typeAssert(fr *Frame, st *State, x *ssa.TypeAssert) Value {
 	}
 	r.L = append(r.L, ok)
 	return r
+}
+
+// implementsFacts: for the named types declared in the repository packages, whether T or *T
+// implements the asserted interface is decided by the type checker's method sets.
+func (ex *Exec) implementsFacts(st *State, asserted types.Type) {
+	iface, ok := asserted.Underlying().(*types.Interface)
+	if !ok {
+		return
+	}
+	key := "implements." + typeKey(asserted)
+	for _, p := range ex.prog.AllPackages() {
+		path := p.Pkg.Path()
+		if !strings.HasPrefix(path, "github.com/jeroenrinzema/psql-wire") {
+			continue
+		}
+		scope := p.Pkg.Scope()
+		for _, name := range scope.Names() {
+			tn, isT := scope.Lookup(name).(*types.TypeName)
+			if !isT || tn.IsAlias() {
+				continue
+			}
+			if _, isI := tn.Type().Underlying().(*types.Interface); isI {
+				continue
+			}
+			if n, isN := tn.Type().(*types.Named); isN && n.TypeParams().Len() > 0 {
+				continue
+			}
+			for _, c := range []types.Type{tn.Type(), types.NewPointer(tn.Type())} {
+				f := UF(key, SBool, Int(int64(typeTag(c))))
+				if types.Implements(c, iface) {
+					st.assume(f)
+				} else {
+					st.assume(Not(f))
+				}
+			}
+		}
+	}
 }
 
 func (ex *Exec) assumeWFIf(st *State, cond *Term, v Value) {
